@@ -1,23 +1,72 @@
-"""Solver worker: receives an SMT-LIB2 benchmark string, returns (status, seconds, reason)."""
+"""Solver worker: receives an SMT-LIB2 benchmark string, returns (status, seconds, info)."""
 import time, subprocess, tempfile, os
 
 
-def run_z3(smt, timeout_ms, seed):
+def _solver(timeout_ms, seed):
     import z3
+    ctx = z3.Context()
+    s = z3.Solver(ctx=ctx)
+    s.set("timeout", int(timeout_ms))
+    s.set("random_seed", int(seed))
+    return z3, ctx, s
+
+
+def run_z3(smt, timeout_ms, seed, subset=None):
     t0 = time.time()
     try:
-        ctx = z3.Context()
-        s = z3.Solver(ctx=ctx)
-        s.set("timeout", int(timeout_ms))
-        s.set("random_seed", int(seed))
-        s.from_string(smt)
+        z3, ctx, s = _solver(timeout_ms, seed)
+        if subset is None:
+            s.from_string(smt)
+        else:
+            A = z3.parse_smt2_string(smt, ctx=ctx)
+            n = len(A)
+            for i in subset:
+                if 0 <= i < n - 1:
+                    s.add(A[i])
+            s.add(A[n - 1])
         r = s.check()
-        reason = ""
-        if r == z3.unknown:
-            reason = s.reason_unknown()
+        reason = s.reason_unknown() if r == z3.unknown else ""
         return (str(r), time.time() - t0, reason)
-    except Exception as ex:  # solver crash is never a verdict
+    except Exception as ex:  # a solver crash is never a verdict
         return ("error", time.time() - t0, repr(ex))
+
+
+def run_core(smt, timeout_ms, seed):
+    """unsat core of the hypotheses (indices into the assertion list; the negated goal is the last assertion)"""
+    t0 = time.time()
+    try:
+        z3, ctx, s = _solver(timeout_ms, seed)
+        s.set("unsat_core", True)
+        A = z3.parse_smt2_string(smt, ctx=ctx)
+        n = len(A)
+        names = {}
+        for i in range(n - 1):
+            p = z3.Bool("h!%d" % i, ctx=ctx)
+            names["h!%d" % i] = i
+            s.assert_and_track(A[i], p)
+        s.add(A[n - 1])
+        r = s.check()
+        if r != z3.unsat:
+            return (str(r), time.time() - t0, [])
+        core = sorted(names[str(c)] for c in s.unsat_core())
+        # greedy minimisation with a short budget per attempt
+        cur = list(core)
+        budget = time.time() + timeout_ms / 1000.0
+        i = 0
+        while i < len(cur) and time.time() < budget:
+            cand = cur[:i] + cur[i + 1:]
+            s2 = z3.Solver(ctx=ctx)
+            s2.set("timeout", 3000)
+            for j in cand:
+                s2.add(A[j])
+            s2.add(A[n - 1])
+            if s2.check() == z3.unsat:
+                cur = cand
+            else:
+                i += 1
+        return ("unsat", time.time() - t0, cur)
+    except Exception as ex:
+        return ("error", time.time() - t0, [])
 
 
 def run_cvc5(smt, timeout_ms):
@@ -37,7 +86,11 @@ def run_cvc5(smt, timeout_ms):
 
 
 def run(job):
-    smt, timeout_ms, seed, backend = job
+    smt, timeout_ms, seed, backend = job[:4]
     if backend == "cvc5":
         return run_cvc5(smt, timeout_ms)
+    if backend == "core":
+        return run_core(smt, timeout_ms, seed)
+    if backend == "hint":
+        return run_z3(smt, timeout_ms, seed, subset=job[4])
     return run_z3(smt, timeout_ms, seed)
